@@ -148,7 +148,7 @@ func run(spec Scenario) outcome {
 				return ptr(bail("watchdog during the warm-up: " + describe(append(r.lane, r.har...))))
 			}
 			sc.diedCheck(r, ctxLive())
-			sc.atRestChecks(&out, "warm", ctxLive())
+			sc.atRestChecks(&out, "warm", ctxLive(), r)
 		}
 		// ---- phase 0: pin workers with gated tasks ------------------------------------------------
 		for i, lane := range spec.Pins {
@@ -189,7 +189,7 @@ func run(spec Scenario) outcome {
 		}
 		out.restState = append(out.restState, "loaded:"+laneState(r))
 		sc.diedCheck(r, ctxLive())
-		sc.atRestChecks(&out, "loaded", ctxLive())
+		sc.atRestChecks(&out, "loaded", ctxLive(), r)
 
 		// ---- phase 2: external cancel in the loaded state ----------------------------------------------
 		if spec.Cancel.Kind == "external" {
@@ -206,7 +206,7 @@ func run(spec Scenario) outcome {
 		out.restState = append(out.restState, "drained:"+laneState(r))
 		live := ctxLive()
 		sc.diedCheck(r, live)
-		sc.atRestChecks(&out, "drained", live)
+		sc.atRestChecks(&out, "drained", live, r)
 		if live {
 			// bounded-progress form of "eventually": context live, every running task returned,
 			// system at rest => every accepted task has been started (exactly once), and all
@@ -388,7 +388,7 @@ func (sc *scn) diedCheck(r rest, live bool) {
 
 // atRestChecks: C08 head-of-line rule and C14 exact pending count, at a structurally
 // quiescent instant.
-func (sc *scn) atRestChecks(out *outcome, phase string, live bool) {
+func (sc *scn) atRestChecks(out *outcome, phase string, live bool, r rest) {
 	accepted, started, _ := sc.counts()
 	s := sc.tl.Status()
 	maxPending := sc.spec.LaneSize * (sc.spec.QueueSize + 1)
@@ -404,6 +404,16 @@ func (sc *scn) atRestChecks(out *outcome, phase string, live bool) {
 	}
 	running := int(sc.running.Load())
 	if running < sc.spec.LaneSize {
+		// a producer parked in PushTask although a worker is idle: its task waits behind a busy
+		// worker (with an idle worker every queue goroutine gets rid of the task it holds and
+		// takes the next one, so no push can stay blocked at rest)
+		for _, g := range r.har {
+			if g.In("tasklane.(*TaskLane).PushTask") {
+				sc.violate("C08", "push-blocked-while-idle:"+phase, fmt.Sprintf("a pushed task is handed to an idle worker (running=%d < laneSize=%d)", running, sc.spec.LaneSize),
+					"at rest with a producer blocked in PushTask: "+describe([]G{g})+"; lane: "+describe(r.lane))
+				break
+			}
+		}
 		out.holChecks++
 		for _, t := range sc.tasks {
 			if t.rc.Load() == rcNil && t.enters.Load() == 0 {
